@@ -67,7 +67,10 @@ def sg_harnesses(sel_list=("SEL_RD", "SEL_WR"), quick_types=None):
                 # request bound: the 8193-entry G.711 tables with a symbolic index and float<->int conversions are the cost drivers
                 LM = 2 if tag in ("ulaw", "alaw") else (3 if (isf or tag.startswith(("float", "double"))) else 5)
                 d = {"CODEC_FILE": '"%s"' % f, "CODEC_INIT": init, "FMT": fmt, "BW": bw, "BE": be, "T": t, "TN": tn, "NDT": tn,
-                     "IS_FLOAT_T": isf, sel: 1, "LMAX": LM, "MF_CAP": LM * bw + 3, "MF_MAXIO": LM * 8, "MF_NFILES": 2,
+                     "IS_FLOAT_T": isf, sel: 1, "LMAX": LM,
+                     # read side: the file may hold one staging buffer (8 bytes) MORE than the largest request, so that a wrapper which
+                     # reads or delivers past the request is visible
+                     "MF_CAP": LM * bw + 3 + (8 if sel == "SEL_RD" else 0), "MF_MAXIO": LM * 8, "MF_NFILES": 2,
                      "LIBSNDFILE_VERIF_BUFFER_LEN": 8}
                 if tag in ("ulaw", "alaw"):
                     d["IS_G711"] = 1
@@ -82,9 +85,9 @@ def sg_harnesses(sel_list=("SEL_RD", "SEL_WR"), quick_types=None):
                 d["RT_MASK(x)"] = m or "(x)"
                 heavy = isf and sel == "SEL_WR" and tag.startswith("pcm")
                 out.append(H("sg.%s.%s.%s%s" % (tag, tn, sel[4:], ".probe_g711range" if probe else ""), "L3/sg_codec.c", kf=["g711range"], probe_for="g711range" if probe else None, link=["common"], stubs=["psf_log_printf", "psf_memset"],
-                             defines=d, unwind=8, unwindset=["psf_fread.0:%d" % (LM * 8 + 1), "psf_fwrite.0:%d" % (LM * 8 + 1), "psf_memset.0:65"] + ["main.%d:%d" % (i, LM * bw + 5) for i in range(14)],
+                             defines=d, unwind=8, unwindset=["psf_fread.0:%d" % (LM * 8 + 1), "psf_fwrite.0:%d" % (LM * 8 + 1), "psf_memset.0:65"] + ["main.%d:%d" % (i, LM * bw + 5 + (8 if sel == "SEL_RD" else 0)) for i in range(14)],
                              checks="mem", include_env=("log_stub", "memfile", "memset_model"), timeout=600, solver="cadical" if isf else "default",
                              tiers=("quick", "thorough") if is_quick(tag, t, sel) else ("thorough",),
                              functions=[init, "%s read_%s/write_%s entry points and array kernels" % (f, tn, tn)],
-                             bounds="1 channel, request 1..%d items over an 8-byte staging buffer (crosses staging boundaries for every width > 1 byte), split point j symbolic, file length symbolic (incl. truncated mid-sample), all sample values" % LM))
+                             bounds="1 channel, request 1..%d items over an 8-byte staging buffer (crosses staging boundaries for every width > 1 byte), split point j symbolic, file length symbolic (incl. truncated mid-sample; on the read side up to 8 bytes beyond the largest request), all sample values" % LM))
     return out
